@@ -40,7 +40,7 @@ CLAIMED = {
         text="Proved: _posterior_frequencies returns the empirical mean allele counts / frequencies / occurrence over all retained steps of all chains; posterior_as_array places each observed probability at the VCF position of its genotype. Bounded (seeded random traces incl. 70-SNV loci, every burn-in, random within-genotype order): posterior, mode, mode support, G-ordered array, chain incongruence of GenotypeMultiTrace / GenotypeAllelesMultiTrace and mset helpers equal a multiset oracle. Known finding F9 (MCI 1-vs-2 depends on chain order) is reported as KNOWN-FINDING.",
         design_ref="DESIGN.md 4, 5 (F9)", note=BASE_NOTE),
     "C17": dict(category="other", technique='run-time contracts of the property evaluated on the real functions over enumerated / seeded bounded domains against oracles written from the property statement (bounded stand-in, never counted as proved)' + "; " + 'contract-based deductive verification: sidecar contracts on the real functions, VCs generated from /repo source by pyvc (loop invariants, ghost lemmas, callee contracts), discharged by z3' + ' for the gamete probability and its building blocks only',
-        text="Proved: dosage_permutations == product of binomials C(parent copies, gamete copies) (no int64 overflow for <= 6 alleles x <= 12 copies); set_initial_dosage yields the first gamete of the enumeration (within the constraint, tau copies in total; raises exactly when tau does not fit); double_reduction_permutations; gamete_log_pmf == (1 - lambda) x multivariate hypergeometric BPROD / C(ploidy, tau) + lambda x (copies of the doubled allele / ploidy). The inheritance pmf, its normalisation and the validity equivalence are NOT within reach of a contract on one call (sums over enumerated gametes): bounded, exhaustive over parental genotypes on 3 alleles, ploidy 2/4(/6), balanced / unbalanced / clonal tau, known / unknown parents, lambda {0,.3}, error grids: exp(trio_log_pmf) equals a brute-force union-of-gametes model pointwise and sums to one; gamete_log_pmf sums to one; zero-error positivity iff trio_valid / duo_valid; PEDERR uses the right parent / tau column.",
+        text="Proved: dosage_permutations == product of binomials C(parent copies, gamete copies) (no int64 overflow for <= 6 alleles x <= 12 copies); set_initial_dosage yields the first gamete of the enumeration (within the constraint, tau copies in total; raises exactly when tau does not fit); double_reduction_permutations; gamete_log_pmf == (1 - lambda) x multivariate hypergeometric BPROD / C(ploidy, tau) + lambda x (copies of the doubled allele / ploidy); set_allelic_dosage / set_parental_copies / set_complimentary_gamete (the dosage arrays of a trio); duo_valid == the closed-form Mendelian test (sum of contributable copies >= tau, double reduction included); increment_dosage (one enumeration step) keeps the gamete within the constraint with the same number of copies and strictly lexicographically smaller. The inheritance pmf, its normalisation and the validity equivalence are NOT within reach of a contract on one call (sums over enumerated gametes): bounded, exhaustive over parental genotypes on 3 alleles, ploidy 2/4(/6), balanced / unbalanced / clonal tau, known / unknown parents, lambda {0,.3}, error grids: exp(trio_log_pmf) equals a brute-force union-of-gametes model pointwise and sums to one; gamete_log_pmf sums to one; zero-error positivity iff trio_valid / duo_valid; PEDERR uses the right parent / tau column.",
         design_ref="DESIGN.md 4 (C17)", note=BASE_NOTE),
     "C18": dict(category="other", technique='run-time contracts of the property evaluated on the real functions over enumerated / seeded bounded domains against oracles written from the property statement (bounded stand-in, never counted as proved)' + "; " + 'contract-based deductive verification: sidecar contracts on the real functions, VCs generated from /repo source by pyvc (loop invariants, ghost lemmas, callee contracts), discharged by z3' + ' for the way the sampler combines likelihood, Markov-blanket prior (proved down to assumed per-trio pmfs) and the shared cache',
         text="Proved (with the per-trio pmfs trio_log_pmf / trio_allele_log_pmf as assumed abstract functions): the three Markov-blanket functions return the pmf of the trio in which the target is the child plus the pmf of the trio of each listed child; sample_children_matrix lists exactly the children of every individual; lemma: the joint pedigree prior over all individuals = blanket probability of t + a rest that does not read t's genotype (hypothesis: the pmf ignores the row passed for an unknown parent, checked at run time); gibbs_probabilities returns exp(own-reads likelihood + Markov-blanket prior) normalised; metropolis_hastings_probabilities is a distribution; both restore the state; pair_allele_swap_step restores the genotypes on rejection; allele_step / sample_step / compound_step keep all genotypes valid. Bounded: 13 small pedigrees (founders, duo, trio, half-sibs, selfing, two generations, mixed ploidy, unbalanced and clonal gametes, two families) x seeded joint states x every (individual, allele copy): gibbs_probabilities == exact full conditional of prod L_i P(g_i|parents) (brute-force inheritance model); MH vector and parental allele exchange in detailed balance; reject restores the state.",
